@@ -49,6 +49,7 @@ def cases(tier, seed):
 
 
 W = world.World(imax=12, jmax=9, N=2, h=40.0, dx=800.0)
+WG = world.World(imax=12, jmax=9, N=2, h=40.0, dx=640.0)  # the explicit grid file: same shape, another spacing
 
 
 def write_world(d):
@@ -59,6 +60,7 @@ def write_world(d):
     W.write_file(d / "f_000.nc", [dict(t=S0 - DT, **f), dict(t=S0 + 2 * DT, **g)])
     W.write_file(d / "f_001.nc", [dict(t=S0 + 4 * DT, **f), dict(t=S0 + 7 * DT, **g)])
     W.write_file(d / "single.nc", [dict(t=S0 - DT, **f), dict(t=S0 + 7 * DT, **g)])
+    WG.write_file(d / "gridfile.nc", [dict(t=S0, **WG.zeros())])
 
 
 def release_file(case, d):
@@ -83,16 +85,27 @@ def forcing_name(case, d):
     return str(d / ("single.nc" if case["grid"] == "omitted-plain" else "f_*.nc"))
 
 
-def render_v2(case, d, cols, outname):
+def plugin_path(d):
+    """A user's grid/forcing plug-in whose file name happens to contain 'ROMS' (a copy of the recording wrappers)."""
+    p = Path(d) / "fjord_ROMS.py"
+    if not p.exists():
+        p.write_text((drive.PLUG / "rec_modules.py").read_text())
+    return str(p)
+
+
+def render_v2(case, d, cols, outname, native_time=False):
     """Version-2 dictionary (rendered to YAML and to TOML)."""
     c = dict(version=2)
     c["time"] = dict(start=world.iso(S0), stop=world.iso(S0 + NSTEPS * DT), dt=dt_spelling(case["dt"]))
     if case["reference"]:
-        c["time"]["reference"] = world.iso(S0 - 86400)
+        import datetime as _dt
+
+        ref = world.iso(S0 - 86400)  # 06:00 on the day before: a non-zero time of day
+        c["time"]["reference"] = _dt.datetime.fromisoformat(ref) if native_time else ref
     plugin_mod = case["grid"] == "explicit-plugin-nomodule"
-    c["forcing"] = dict(module=drive.plug("rec_modules.py") if plugin_mod else "ladim.ROMS", filename=forcing_name(case, d))
+    c["forcing"] = dict(module=plugin_path(d) if plugin_mod else "ladim.ROMS", filename=forcing_name(case, d))
     if case["grid"] in ("explicit", "explicit-plugin-nomodule"):
-        c["grid"] = dict(module="ladim.ROMS", filename=str(d / "f_000.nc"))
+        c["grid"] = dict(module="ladim.ROMS", filename=str(d / "gridfile.nc"))
         if plugin_mod:
             del c["grid"]["module"]  # a grid section without module: the grid comes from the forcing module
         if case["subgrid"]:
@@ -144,9 +157,11 @@ def render_v1(case, d, cols, outname):
     if case["reference"]:
         c["time_control"]["reference_time"] = world.iso(S0 - 86400)
     c["files"] = dict(particle_release_file=str(d / "r.rls"), output_file=str(d / outname))
-    c["gridforce"] = dict(module=drive.plug("rec_modules.py") if case["grid"] == "explicit-plugin-nomodule" else "ladim.ROMS", input_file=forcing_name(case, d))
+    # the ROMS module under its version-1 name (as in examples/line/ladim1.yaml) in one half of the lattice
+    v1mod = "ladim1.gridforce.ROMS" if case["advection"] == "RK4" else "ladim.ROMS"
+    c["gridforce"] = dict(module=plugin_path(d) if case["grid"] == "explicit-plugin-nomodule" else v1mod, input_file=forcing_name(case, d))
     if case["grid"] in ("explicit", "explicit-plugin-nomodule"):
-        c["gridforce"]["gridfile"] = str(d / "f_000.nc")
+        c["gridforce"]["gridfile"] = str(d / "gridfile.nc")
     if case["subgrid"]:
         c["gridforce"]["subgrid"] = case["subgrid"]
     pr = dict(variables=cols)
@@ -183,6 +198,8 @@ def to_toml(c):
     def scalar(v):
         if isinstance(v, bool):
             return "true" if v else "false"
+        if hasattr(v, "isoformat"):
+            return v.isoformat()  # native TOML local date-time
         if isinstance(v, (int, float)):
             return repr(v)
         if isinstance(v, str):
@@ -250,10 +267,11 @@ def run_case(case):
     write_world(d)
     cols = release_file(case, d)
     files = {}
-    v2 = render_v2(case, d, cols, "out_yaml2.nc")
+    native = True  # the v2 files carry the reference time as a native timestamp (YAML timestamp, TOML local date-time), the v1 file as a string
+    v2 = render_v2(case, d, cols, "out_yaml2.nc", native_time=native)
     (d / "c_yaml2.yaml").write_text(yaml.safe_dump(v2, sort_keys=False))
     files["yaml2"] = d / "c_yaml2.yaml"
-    (d / "c_toml2.toml").write_text(to_toml(render_v2(case, d, cols, "out_toml2.nc")))
+    (d / "c_toml2.toml").write_text(to_toml(render_v2(case, d, cols, "out_toml2.nc", native_time=native)))
     files["toml2"] = d / "c_toml2.toml"
     (d / "c_yaml1.yaml").write_text(yaml.safe_dump(render_v1(case, d, cols, "out_yaml1.nc"), sort_keys=False))
     files["yaml1"] = d / "c_yaml1.yaml"
@@ -309,6 +327,12 @@ def run_case(case):
         diff = {k: v for k, v in diff.items() if k not in ("grid_file",) or Path(v[0]).name != Path(v[1]).name}
         if diff:
             bad(f"config:{name}", f"configure() of the {name} spelling differs from yaml2 on {diff}")
+        ua, ub = [f["units"] for f in results[ref]["files"]], [f["units"] for f in results[name]["files"]]
+        if ua != ub:
+            bad(f"output:{name}:time-units", f"time units {ub} vs yaml2 {ua}")
+        pu_a, pu_b = results[ref]["files"][0]["particle_units"], results[name]["files"][0]["particle_units"]
+        if pu_a != pu_b:
+            bad(f"output:{name}:time-units", f"particle variable units {pu_b} vs yaml2 {pu_a}")
         ra, rb = results[ref]["records"], results[name]["records"]
         if [r["time"] for r in ra] != [r["time"] for r in rb]:
             bad(f"output:{name}:times", f"record times {[r['time'] - S0 for r in rb]} vs yaml2 {[r['time'] - S0 for r in ra]}")
@@ -330,7 +354,7 @@ def run_case(case):
         if len(recs) != NSTEPS or recs[-1]["count"] < 3:
             bad("vacuous", f"reference run wrote {len(recs)} records, last with {recs[-1]['count'] if recs else 0} particles")
         if ref in configs:
-            exp_grid = "f_000.nc" if case["grid"] != "omitted-plain" else "single.nc"
+            exp_grid = "gridfile.nc" if case["grid"].startswith("explicit") else "f_000.nc" if case["grid"] != "omitted-plain" else "single.nc"
             if Path(configs[ref]["grid_file"]).name != exp_grid:
                 bad("config:grid-default", f"grid file {configs[ref]['grid_file']} expected {exp_grid} (first forcing file)")
     nt = int(case["release"] == "continuous" or case["column"] != "none" or case["ibmvar"] or case["subgrid"] is not None or case["grid"] != "explicit")
